@@ -238,6 +238,10 @@ func (vt *Model) cnl(ps int) {
 	if ps == 0 {
 		ps = 1
 	}
+	if ps > vt.height() {
+		// nothing changes any more once every line has been passed
+		ps = vt.height()
+	}
 	for i := 0; i < ps; i += 1 {
 		vt.nel()
 	}
@@ -249,6 +253,10 @@ func (vt *Model) cpl(ps int) {
 	vt.lastCol = false
 	if ps == 0 {
 		ps = 1
+	}
+	if ps > vt.height() {
+		// nothing changes any more once every line has been passed
+		ps = vt.height()
 	}
 	for i := 0; i < ps; i += 1 {
 		vt.ri()
